@@ -16,6 +16,7 @@
 -- generated formulas are polymorphic in the operation record and the driver runs them on the raw-word operations).
 import WinterProofs.Lemmas.C08Transfer
 import WinterProofs.Lemmas.C08Bytes
+import WinterProofs.Lemmas.C08Irred
 
 set_option linter.unusedSectionVars false
 set_option linter.unusedSimpArgs false
@@ -479,6 +480,26 @@ theorem c64_field (x y : Cube (ZMod Gen.F64.M)) :
   ⟨cube_conjugate_eq_pow c64_spec c64_frob3 x, (cube_inverse c64_spec c64_frob3 _).1 rfl,
     (cube_inverse c64_spec c64_frob3 x).2, cube_division c64_spec c64_frob3 x y⟩
 
+/-- **the documented polynomials are irreducible** (as polynomials of Mathlib over the prime field):
+    f64 quadratic `x² - x + 2` -/
+theorem q64_irreducible :
+    Irreducible (Polynomial.X ^ 2 - Polynomial.X + 2 : Polynomial (ZMod Gen.F64.M)) := by
+  have h := poly2_irreducible (s := (1 : ZMod Gen.F64.M)) (t := -2) (PQ2.eq_zero_or one_ne_zero q64_phi_pow)
+  have e : poly2 (1 : ZMod Gen.F64.M) (-2) = Polynomial.X ^ 2 - Polynomial.X + 2 := by
+    unfold poly2
+    simp only [map_one, one_mul, map_neg, sub_neg_eq_add]
+    rfl
+  rwa [e] at h
+
+/-- f64 cubic `x³ - x - 1` -/
+theorem c64_irreducible :
+    Irreducible (Polynomial.X ^ 3 - Polynomial.X - 1 : Polynomial (ZMod Gen.F64.M)) := by
+  have h := poly3_irreducible (s := (1 : ZMod Gen.F64.M)) (t := 1) (PQ3.eq_zero_or c64_frob3)
+  have e : poly3 (1 : ZMod Gen.F64.M) 1 = Polynomial.X ^ 3 - Polynomial.X - 1 := by
+    unfold poly3
+    simp only [map_one, one_mul]
+  rwa [e] at h
+
 end F64
 
 section F62
@@ -555,6 +576,25 @@ theorem c62_field (x y : Cube (ZMod Gen.F62.M)) :
   ⟨cube_conjugate_eq_pow c62_spec c62_frob3 x, (cube_inverse c62_spec c62_frob3 _).1 rfl,
     (cube_inverse c62_spec c62_frob3 x).2, cube_division c62_spec c62_frob3 x y⟩
 
+/-- f62 quadratic `x² - x - 1` -/
+theorem q62_irreducible :
+    Irreducible (Polynomial.X ^ 2 - Polynomial.X - 1 : Polynomial (ZMod Gen.F62.M)) := by
+  have h := poly2_irreducible (s := (1 : ZMod Gen.F62.M)) (t := 1) (PQ2.eq_zero_or one_ne_zero q62_phi_pow)
+  have e : poly2 (1 : ZMod Gen.F62.M) 1 = Polynomial.X ^ 2 - Polynomial.X - 1 := by
+    unfold poly2
+    simp only [map_one, one_mul]
+  rwa [e] at h
+
+/-- f62 cubic `x³ + 2x + 2` -/
+theorem c62_irreducible :
+    Irreducible (Polynomial.X ^ 3 + 2 * Polynomial.X + 2 : Polynomial (ZMod Gen.F62.M)) := by
+  have h := poly3_irreducible (s := (-2 : ZMod Gen.F62.M)) (t := -2) (PQ3.eq_zero_or c62_frob3)
+  have e : poly3 (-2 : ZMod Gen.F62.M) (-2) = Polynomial.X ^ 3 + 2 * Polynomial.X + 2 := by
+    unfold poly3
+    simp only [map_neg, neg_mul, sub_neg_eq_add]
+    rfl
+  rwa [e] at h
+
 end F62
 
 section F128
@@ -576,6 +616,15 @@ theorem q128_field (x y : Quad (ZMod Gen.F128.M)) :
       Quad.mul (Ext2.f128 (ringOps _)) z y = x) :=
   ⟨quad_conjugate_eq_pow q128_spec q128_phi_pow x, (quad_inverse q128_spec one_ne_zero q128_phi_pow _).1 rfl,
     (quad_inverse q128_spec one_ne_zero q128_phi_pow x).2, quad_division q128_spec one_ne_zero q128_phi_pow x y⟩
+
+/-- f128 quadratic `x² - x - 1` -/
+theorem q128_irreducible :
+    Irreducible (Polynomial.X ^ 2 - Polynomial.X - 1 : Polynomial (ZMod Gen.F128.M)) := by
+  have h := poly2_irreducible (s := (1 : ZMod Gen.F128.M)) (t := 1) (PQ2.eq_zero_or one_ne_zero q128_phi_pow)
+  have e : poly2 (1 : ZMod Gen.F128.M) 1 = Polynomial.X ^ 2 - Polynomial.X - 1 := by
+    unfold poly2
+    simp only [map_one, one_mul]
+  rwa [e] at h
 
 end F128
 
